@@ -176,7 +176,7 @@ theorem after_afterCreate {inp : Input} {s : Sys} {n : Name} {nd : Node} {l : LI
 /-- the creator call: every trigger of the creator has a terminal report already (that is C15 `after_trigger`) -/
 theorem after_evalCreator {inp : Input} {s : Sys} {n : Name} {nd : Node} {l : LId} (tname : Name)
     (h : AfterInv inp s) (hn : s.nodes n = some nd) (hpc : nd.pc = .loaderPc) (hl : nd.task.loader = some l) :
-    AfterInv inp (evalCreator inp s l tname) ∧ (evalCreator inp s l tname).nodes n = some nd := by
+    AfterInv inp (evalCreator inp s l tname b) ∧ (evalCreator inp s l tname b).nodes n = some nd := by
   obtain ⟨hb, ht⟩ := h.node n nd hn
   have hrep : ∀ d ∈ trigOf inp (inp.creatorOf l), s.events.any (Ev.reports d) = true := by
     intro d hd
